@@ -23,6 +23,12 @@ check("C06", "model_checking",
       "time steps are binary-exact; Quat compared with an f64 slerp reference (1e-5 rad), other types bit-exactly; behaviour of a clock pausing in mid-tween is not fixed by the statement and not demanded; Value::FromModulator targets are covered under C17.",
       "DESIGN.md §3 C06")
 
+check("C03", "model_checking",
+      "exhaustive command-sequence enumeration (depth-bounded, 13-letter alphabet) of the real static/streaming Sound objects in lock-step with a 7-state reference machine",
+      "All command sequences of length <= 4 (quick) / 6 static, 5 streaming (thorough) over {none, pause(0/2s), resume(0/3s), resume_at(delayed/clock), stop(0/2s eased), seek_to, set_volume tween, clock advances, clock removed}, each letter followed by a callback, for static sounds, streaming sounds with the decoder kept ahead and streaming sounds with a starved decoder, looping-DC and finite shapes, own start time immediate/delayed/clock, chunk sizes 1 and 3, run against PlaybackModel: reported state after every callback, per-frame gain envelope, exact silence and frozen position in Paused/WaitingToResume/Stopped, fade timing within one callback, monotone gain, Stopped absorbing, natural end window; plus a manager pass for unloading at the next callback and slot reuse with a capacity-1 track.",
+      "decoder thread paced deterministically through the verif-hooks gate; natural end may be reported up to 4 source frames late; transitions the statement leaves open (e.g. resume during Stopping) follow the documented command semantics; whether a seek issued within the resampler look-ahead of the end still takes effect is left to C04.",
+      "DESIGN.md §3 C03")
+
 NOT_YET = {}
 
 def main():
